@@ -685,6 +685,15 @@ func (e *Executor) Pending(ctx context.Context) ([]File, error) {
 	if err != nil {
 		return nil, fmt.Errorf("sql/migrate: read migration directory files: %w", err)
 	}
+	// A revision is identified by its version: two files that
+	// share one cannot both be recorded (nor resumed) correctly.
+	versions := make(map[string]string, len(all))
+	for _, f := range all {
+		if name, ok := versions[f.Version()]; ok {
+			return nil, fmt.Errorf("sql/migrate: files %q and %q have the same version %q", name, f.Name(), f.Version())
+		}
+		versions[f.Version()] = f.Name()
+	}
 	migrations := SkipCheckpointFiles(all)
 	var pending []File
 	switch {
